@@ -7,6 +7,7 @@ require (
 	github.com/gogo/protobuf v1.2.1
 	github.com/henrylee2cn/erpc/v6 v6.0.0
 	github.com/henrylee2cn/goutil v0.0.0-20200416032639-974f5b4094a2
+	github.com/tidwall/gjson v1.2.2
 )
 
 require (
@@ -18,7 +19,6 @@ require (
 	github.com/pkg/errors v0.8.1 // indirect
 	github.com/templexxx/cpu v0.0.1 // indirect
 	github.com/templexxx/xorsimd v0.4.1 // indirect
-	github.com/tidwall/gjson v1.2.2 // indirect
 	github.com/tidwall/match v1.0.1 // indirect
 	github.com/tidwall/pretty v1.0.0 // indirect
 	github.com/tjfoc/gmsm v1.0.1 // indirect
